@@ -8,7 +8,7 @@ import BrushVerif.Spec.Glob
   `impl` = brush's `exactly_matches` as modelled (`U…` when the class text is outside the modelled
   regex subset), `full` = the same regex anchored to the whole subject, `spec` = POSIX/bash
   (`-` when the pattern text is outside the well-formed fragment); features: `B` has `!(…)`,
-  `A` backslash+alphanumeric bracket member, `O` regex set operator in bracket text, `C` named class,
+  `A` backslash+alphanumeric bracket member, `O` regex set operator in bracket text, `X` class text starting with `^` after a dropped range, `C` named class,
   `K` brush's grammar reads the text differently from POSIX.
 * `G <ext> <nocase> <dotglob> <pat> <name>…` → `<impl names> <spec names|->` (comma separated, escaped)
 -/
@@ -29,7 +29,7 @@ def report (ext nc : Bool) (pt : Str) (ss : List Str) : Str :=
     let q := parsePat ext pt
     let re := toRe q
     let sq := specParse ext pt
-    let unmod := q.backslashAlnum || q.setOp
+    let unmod := q.backslashAlnum || q.setOp || q.caretFirst
     let impl : Str := if unmod then ['U'] else ss.map fun s => bit (lineSearch nc re true s)
     let full : Str := if unmod then ['U'] else ss.map fun s => bit (re.full nc s)
     let spec : Str := match sq with
@@ -37,7 +37,7 @@ def report (ext nc : Bool) (pt : Str) (ss : List Str) : Str :=
       | some q' => ss.map fun s => bit (matchB nc q' s)
     let feats : Str :=
       (if q.hasBang then ['B'] else []) ++ (if q.backslashAlnum then ['A'] else []) ++
-      (if q.setOp then ['O'] else []) ++ (if q.hasCls then ['C'] else []) ++
+      (if q.setOp then ['O'] else []) ++ (if q.caretFirst then ['X'] else []) ++ (if q.hasCls then ['C'] else []) ++
       (match sq with | some q' => if q' = q then [] else ['K'] | none => []) ++ ['.']
     let nz (x : Str) : Str := if x.isEmpty then ['-'] else x
     nz impl ++ [' '] ++ nz full ++ [' '] ++ nz spec ++ [' '] ++ feats
